@@ -13,7 +13,7 @@ P("C02", "other", True, KB,
   "P: kernel = nested-sum spec obligations, FORMULA obligations of four n.s.i. measures; B: metamorphic node-splitting check (bounded/c02.py).",
   notdec=["invariance for graphs beyond the enumerated scope"])
 P("C03", "other", True, KB,
-  "Proved: Newman chunk kernels equal their triple-sum definition; cliquishness kernels are index-safe and free of integer overflow (normaliser computed in double); the Python bodies of nsi_closeness, nsi_harmonic_closeness, nsi_global_efficiency and nsi_global_clustering equal their defining weighted sums (FORMULA). Bounded: every public measure against an independent definition-level spec, exhaustive over small graphs.",
+  "Proved: Newman chunk kernels equal their triple-sum definition; cliquishness kernels are index-safe and free of integer overflow (normaliser computed in double); the Python bodies of nsi_closeness, nsi_harmonic_closeness, nsi_global_efficiency and nsi_global_clustering equal their defining weighted sums, and weighted_local_clustering equals the [Holme2007] quotient sum_km w_im w_mk w_ki / (max(w) sum_km w_im w_ki) for every weight matrix, symmetric or not (FORMULA; matrix products as indexed sums, max(w) uninterpreted with its bound). Bounded: every public measure against an independent definition-level spec, exhaustive over small graphs.",
   "ARPACK/igraph algorithms are dependencies compared in the bounded layer only.",
   "P: _mpi_newman_betweenness/_mpi_nsi_newman_betweenness fold specs, cliquishness safety/overflow; B: bounded/c03.py vs specs/network_spec.py.",
   notdec=["spectral measures beyond comparison at stated tolerance", "igraph internals"])
